@@ -583,7 +583,7 @@ def gen_rules_pass(r, lims):
 # ---------------------------------------------------------------------------------------------------------------------------
 # Gloc / Glat (GlyphCache::Loader, sparse)
 
-def build_glyph_tables(r, nglyphs, version, long_fmt, attribids=False, num_attrs=None, hostile=0.0):
+def build_glyph_tables(r, nglyphs, version, long_fmt, attribids=False, num_attrs=None, hostile=0.0, no_subboxes=False):
     """-> (Gloc, Glat): `nglyphs` glyphs with a few run-length entries each (and, for version 3, an octabox header with sub-boxes).
     `hostile` is the chance per glyph of an irregular entry: a zero value, a run of 0, keys that go backwards or repeat, a run that
     reaches beyond the glyph's data, a key near 65535, no entry at all"""
@@ -597,6 +597,8 @@ def build_glyph_tables(r, nglyphs, version, long_fmt, attribids=False, num_attrs
         offs.append(len(glat))
         if version >= 0x00030000:
             bmap = r.choice([0, 0, 1, 3, 0x8001, 0x00F0, r.randrange(65536)]) if r.random() < 0.5 else 0
+            if no_subboxes:
+                bmap = 0
             glat += struct.pack(">H", bmap) + bytes(r.randrange(256) for _ in range(4 + 8 * bin(bmap).count("1")))
         key = 0
         nent = r.randrange(1, 4)
